@@ -43,6 +43,22 @@ def succ_axioms():
     return [z3.ForAll([v, j, k], succ4(v, j, k) == (v % ipow(4, k - 1)) * 4 + j, patterns=[succ4(v, j, k)])]
 
 
+# occ(marr, mstart, mlen, sarr, sstart, slen): the string (marr, mstart, mlen) occurs as a substring of (sarr, sstart, slen).  Kept as a predicate
+# symbol (substring search is Python's `in`); code and spec both build it from the same terms.
+occ = z3.Function("occ", A, I, I, A, I, I, z3.BoolSort())
+# deterministic character-wise string operations as array functions (same input term -> same output term)
+repl = z3.Function("str_replace", A, I, I, A)        # repl(a, x, y)[i] = y if a[i] == x else a[i]
+upper = z3.Function("str_upper", A, A)
+rev = z3.Function("str_reverse", A, I, I, A)           # rev(a, start, n)[i] = a[start + n - 1 - i]   (result starts at 0)
+
+
+def str_axioms():
+    a, i, x, y, s0, n = z3.Const("sa_", A), z3.Int("si_"), z3.Int("sx_"), z3.Int("sy_"), z3.Int("ss_"), z3.Int("sn_")
+    return [z3.ForAll([a, x, y, i], repl(a, x, y)[i] == z3.If(a[i] == x, y, a[i]), patterns=[repl(a, x, y)[i]]),
+            z3.ForAll([a, i], upper(a)[i] == z3.If(z3.And(a[i] >= 97, a[i] <= 122), a[i] - 32, a[i]), patterns=[upper(a)[i]]),
+            z3.ForAll([a, s0, n, i], rev(a, s0, n)[i] == a[s0 + n - 1 - i], patterns=[rev(a, s0, n)[i]])]
+
+
 RECURSIVE = {}
 
 
